@@ -429,7 +429,23 @@ static void fam_len(const base_t *b) {
 			for (i = 0; i < k; i++) m[b->len + (size_t)i] = B32[v];
 			m[b->len + (size_t)k] = 0;
 			judge(&a, b, m, b->len + (size_t)k, "k copies of a symbol appended without separator (pos=k, val=symbol)", k, B32[v]);
+			/* the same followed by 1..6 pad characters (a decoder that stops at the first '=' must still see the surplus) */
+			if (k <= 2) {
+				int j, q;
+				for (j = 1; j <= 6; j++) {
+					for (q = 0; q < j; q++) m[b->len + (size_t)k + (size_t)q] = '=';
+					m[b->len + (size_t)k + (size_t)j] = 0;
+					judge(&a, b, m, b->len + (size_t)k + (size_t)j, "k copies of a symbol and pad characters appended (pos=k, val=symbol)", k, B32[v]);
+				}
+			}
 		}
+	/* the valid string itself followed by 1..8 pad characters */
+	for (k = 1; k <= 8; k++) {
+		memcpy(m, b->s, b->len);
+		for (i = 0; i < k; i++) m[b->len + (size_t)i] = '=';
+		m[b->len + (size_t)k] = 0;
+		judge(&a, b, m, b->len + (size_t)k, "pad characters appended (pos=count)", k, '=');
+	}
 	acc_finish(&a);
 }
 
